@@ -363,6 +363,11 @@ def c07(prop, tier, seed, work):
              stores=["mem", "dir"], obs=["refs", "filters"], nrepos=1, cfg={"refLimit": 600}),
         dict(name="refspage2", profile="refs", contents=["m1", "a1", "a2", "a5", "a9"], algs=["sha256"], depth=(22, 36), num=(10, 120),
              stores=["mem", "dir"], obs=["refs", "filters"], nrepos=1, cfg={"refLimit": 950}),
+        # entries that cannot fit on any page (a10: 1060 bytes, a11: 1007 bytes alone) next to ones that do
+        dict(name="refspage3", profile="refs", contents=["m1", "a1", "a2", "a10", "a11"], algs=["sha256"], depth=(22, 36), num=(10, 120),
+             stores=["mem", "dir"], obs=["refs", "filters"], nrepos=1, cfg={"refLimit": 600}),
+        dict(name="refspage4", profile="refs", contents=["m1", "a1", "a10", "a11"], algs=["sha256"], depth=(22, 36), num=(8, 100),
+             stores=["mem", "dir"], obs=["refs", "filters"], nrepos=1, cfg={"refLimit": 1030}),
         dict(name="refs512", profile="refs", contents=["m1", "a1", "a8", "a3"], algs=["sha256", "sha512"], depth=(20, 30), num=(10, 100),
              stores=["mem", "dir"], obs=["refs", "filters"], nrepos=2),
     ]
@@ -463,6 +468,9 @@ def c10(prop, tier, seed, work):
              stores=["dir", "mem"], obs=["disk", "sess"], cfg={"emptyRepo": True}, nrepos=1),
         dict(name="layout384", profile="layout", contents=["m1", "b3"], algs=["sha256", "sha384"], depth=(20, 30), num=(8, 80),
              stores=["dir", "mem"], obs=["disk", "sess"], cfg={"emptyRepo": True}, repos=["a", "a/b"]),
+        # an index nested in an index (x2 lists x1 lists m1, m2): what a reload of index.json rebuilds from the index blobs
+        dict(name="layoutN", profile="layout", contents=["x2"], algs=["sha256"], depth=(30, 44), num=(25, 250),
+             stores=["dir", "memdir"], obs=["disk"], cfg={"emptyRepo": True}, nrepos=1),
     ]
     return histories(prop, tier, seed, work, scs, "", "a history is non-trivial if it restarts the server or runs a collection after at least one manifest push; distinct = distinct operation sequences",
                      {"Restart", "GC"})
